@@ -241,3 +241,60 @@ Proof.
       destruct start; try (rewrite <- has_type_struct; apply (zero_typed (TStruct fs)); cbn [wf_ty]; apply forallb_forall; exact Hw).
       rewrite <- has_type_struct. exact Hs.
 Qed.
+
+(* ---------- what the document does not address keeps its value ---------- *)
+Lemma nth_set_nth_other : forall (l : list gv) i j x d, i <> j -> nth i (set_nth j x l) d = nth i l d.
+Proof.
+  induction l as [|y l IH]; intros i j x d H; [destruct j; reflexivity|].
+  destruct j as [|j]; destruct i as [|i]; cbn [set_nth nth]; try reflexivity; [congruence|apply IH; congruence].
+Qed.
+
+(* no key of the document selects field i *)
+Fixpoint not_addressed (fs : list (list N * ty)) (i : nat) (l : list (list N * bool * jv)) : bool :=
+  match l with
+  | [] => true
+  | (k, _, _) :: r =>
+      match unq k with
+      | None => true
+      | Some k' => match field_lookup k' fs with Some (j, _) => negb (Nat.eqb j i) | None => true end
+      end && not_addressed fs i r
+  end.
+
+Theorem struct_field_not_addressed_keeps_value (decf : ty -> jv -> gv -> dres) fs i : forall l cur r,
+  not_addressed fs i l = true -> struct_loop decf fs l cur = DOk (VStruct r) -> nth i r VNil = nth i cur VNil.
+Proof.
+  induction l as [|[[k om] x] l IH]; intros cur r Hn H; cbn [struct_loop] in H.
+  - inversion H; subst. reflexivity.
+  - cbn [not_addressed] in Hn. destruct (unq k) as [k'|]; [|discriminate H]. apply andb_true_iff in Hn. destruct Hn as [Hk Hn].
+    destruct (field_lookup k' fs) as [[j ft]|]; [|apply (IH cur r Hn H)].
+    destruct (decf ft x (nth j cur VNil)) as [v| |]; try discriminate H.
+    rewrite (IH (set_nth j v cur) r Hn H). apply nth_set_nth_other. apply negb_true_iff in Hk. apply Nat.eqb_neq in Hk. congruence.
+Qed.
+
+(* a key of the map the document does not mention keeps its value *)
+Fixpoint value_of (k : list N) (m : list (list N * gv)) : option gv :=
+  match m with [] => None | (k', v) :: r => if list_eqb k k' then Some v else value_of k r end.
+
+Lemma value_of_set_other k0 k v : list_eqb k0 k = false -> forall m, value_of k0 (set_key k v m) = value_of k0 m.
+Proof.
+  intro H. induction m as [|[k' v'] m IH]; cbn [set_key value_of]; [rewrite H; reflexivity|].
+  destruct (list_eqb k k') eqn:E; cbn [value_of].
+  - apply list_eqb_eq in E. subst k'. rewrite H. reflexivity.
+  - destruct (list_eqb k0 k'); [reflexivity|exact IH].
+Qed.
+
+Fixpoint not_mentioned (k0 : list N) (l : list (list N * bool * jv)) : bool :=
+  match l with
+  | [] => true
+  | (k, _, _) :: r => match unq k with Some k' => negb (list_eqb k0 k') | None => true end && not_mentioned k0 r
+  end.
+
+Theorem map_key_not_mentioned_keeps_value (decf : jv -> gv -> dres) z0 k0 : forall l m m',
+  not_mentioned k0 l = true -> map_loop decf z0 l m = DOk (VMap m') -> value_of k0 m' = value_of k0 m.
+Proof.
+  induction l as [|[[k om] x] l IH]; intros m m' Hn H; cbn [map_loop] in H.
+  - inversion H; subst. reflexivity.
+  - cbn [not_mentioned] in Hn. destruct (unq k) as [k'|]; [|discriminate H]. apply andb_true_iff in Hn. destruct Hn as [Hk Hn].
+    destruct (decf x z0) as [v| |]; try discriminate H.
+    rewrite (IH (set_key k' v m) m' Hn H). apply value_of_set_other. apply negb_true_iff in Hk. exact Hk.
+Qed.
